@@ -117,6 +117,78 @@ theorem localMaxima_complete_strict (x : List ℝ) (i : Nat) (a v b : ℝ) (hi :
   simp [hi, hlen, h1, h2]
   omega
 
+theorem runLeft_eq (x : List ℝ) (v : ℝ) (l : ℕ) : ∀ i, l ≤ i →
+    (∀ j, l ≤ j → j < i → x[j]? = some v) → (l = 0 ∨ ∃ a, x[l-1]? = some a ∧ a ≠ v) → runLeft x v i = i - l := by
+  intro i
+  induction i with
+  | zero => intro hl _ _; simp [runLeft]
+  | succ i ih =>
+    intro hl hall hstop
+    unfold runLeft
+    rcases Nat.lt_or_ge l (i + 1) with hlt | hge
+    · have hi : x[i]? = some v := hall i (by omega) (by omega)
+      rw [hi]
+      have : eqA v v = true := (eqA_real v v).mpr rfl
+      simp only [this, if_true]
+      rw [ih (by omega) (fun j h1 h2 => hall j h1 (by omega)) hstop]
+      omega
+    · have hli : l = i + 1 := by omega
+      subst hli
+      rcases hstop with h0 | ⟨a, ha, hne⟩
+      · omega
+      · simp only [Nat.add_sub_cancel] at ha
+        rw [ha]
+        have : eqA a v = false := by rw [Bool.eq_false_iff]; intro hh; exact hne ((eqA_real a v).mp hh)
+        simp [this]
+
+theorem runRight_eq (x : List ℝ) (v : ℝ) (r : ℕ) : ∀ (k i : ℕ), i ≤ r → r - i < k →
+    (∀ j, i < j → j ≤ r → x[j]? = some v) → (x[r+1]? = none ∨ ∃ b, x[r+1]? = some b ∧ b ≠ v) →
+    runRight x v i k = r - i := by
+  intro k
+  induction k with
+  | zero => intro i _ hk; omega
+  | succ k ih =>
+    intro i hir hk hall hstop
+    unfold runRight
+    rcases Nat.lt_or_ge i r with hlt | hge
+    · have hi : x[i+1]? = some v := hall (i + 1) (by omega) (by omega)
+      rw [hi]
+      have : eqA v v = true := (eqA_real v v).mpr rfl
+      simp only [this, if_true]
+      rw [ih (i + 1) (by omega) (by omega) (fun j h1 h2 => hall j (by omega) h2) hstop]
+      omega
+    · have hri : r = i := by omega
+      subst hri
+      rcases hstop with h0 | ⟨b, hb, hne⟩
+      · rw [h0]; simp
+      · rw [hb]
+        have : eqA b v = false := by rw [Bool.eq_false_iff]; intro hh; exact hne ((eqA_real b v).mp hh)
+        simp [this]
+
+/-- **Completeness of the local-maximum search** (plateaus included): every interior plateau maximum is reported. -/
+theorem localMaxima_complete (x : List ℝ) (i : ℕ) (h : IsPlateauMax x i) : i ∈ localMaxima x := by
+  obtain ⟨l, r, v, hli, hir, hall, hl0, hrn, ⟨a, ha, hav⟩, ⟨b, hb, hbv⟩, hmid⟩ := h
+  have hilen : i < x.length := by omega
+  have hxi : x[i]? = some v := hall i hli hir
+  have hL : runLeft x v i = i - l :=
+    runLeft_eq x v l i hli (fun j h1 h2 => hall j h1 (by omega)) (Or.inr ⟨a, ha, ne_of_lt hav⟩)
+  have hR : runRight x v i (x.length - i) = r - i :=
+    runRight_eq x v r (x.length - i) i hir (by omega) (fun j h1 h2 => hall j (by omega) h2) (Or.inr ⟨b, hb, ne_of_lt hbv⟩)
+  unfold localMaxima
+  rw [List.mem_filter]
+  refine ⟨List.mem_range.mpr hilen, ?_⟩
+  unfold isPlateauMid plateauBounds
+  rw [hxi]
+  simp only [hL, hR]
+  have e1 : i - (i - l) = l := by omega
+  have e2 : i + (r - i) = r := by omega
+  rw [e1, e2, ha, hb]
+  simp [hl0, hrn, hav, hbv, hmid]
+
+/-- the search reports exactly the interior plateau maxima -/
+theorem localMaxima_iff (x : List ℝ) (i : ℕ) : i ∈ localMaxima x ↔ IsPlateauMax x i :=
+  ⟨localMaxima_sound x i, localMaxima_complete x i⟩
+
 theorem argmaxOn_none (amp : List ℝ) (is : List Nat) (h : argmaxOn amp is = none) :
     ∀ j ∈ is, amp[j]? = none := by
   induction is with
